@@ -6,7 +6,7 @@
 Require Import ZArith QArith List Bool.
 Require Import BFL.Ops BFL.ListOps BFL.C02_Model.
 From mathcomp Require Import all_ssreflect all_algebra.
-Require Import BFL.MxOps BFL.LinAlg BFL.C02_Proofs.
+Require Import BFL.MxOps BFL.LinAlg BFL.C02_Proofs BFL.ListOpsCorrect BFL.C02_Transport.
 Import GRing.Theory.
 Local Open Scope ring_scope.
 
@@ -112,6 +112,26 @@ Proof. exact: kfp_skipped. Qed.
 
 End C02.
 
+(* The tie between the two instances of the one model, proved: the prediction
+   step executed at the LIST instance (the one that is extracted and run
+   against the library), with the scalars of any realFieldType, returns a
+   mixture that represents (well-formed lists, same entries, same weights) the
+   mixture the MathComp instance returns - for every dimension, component
+   count, skip-flag combination and exogenous model that respects the
+   representation.  Together with the theorems above this makes the executed
+   model exact up to rounding. *)
+Theorem C02_executed_model_is_theorem_model (F : realFieldType) (tr : Transc F)
+        (sq : forall n, 'M[F]_n -> 'M[F]_n) (eg : forall n, 'M[F]_n -> 'M[F]_(n,1))
+        n k (lF lQ : lmxF F) (Fm Q : 'M[F]_n)
+        (ul : option (lmxF F -> lmxF F)) (um : option ('M[F]_(n,k) -> 'M[F]_(n,k)))
+        (prevl oldl : gmix (ListMat (FOps tr) (fun _ X => X) (fun _ X => X)) n k)
+        (prevm oldm : gmix (MxMat tr sq eg) n k) (sp ss se : bool) :
+  @repr F n n lF Fm -> @repr F n n lQ Q -> repr_exo ul um ->
+  repr_gmix prevl prevm -> repr_gmix oldl oldm ->
+  repr_gmix (gaussian_predict (O:=ListMat (FOps tr) (fun _ X => X) (fun _ X => X)) (n:=n) (k:=k) lF lQ ul sp ss se prevl oldl)
+            (gaussian_predict (O:=MxMat tr sq eg) Fm Q um sp ss se prevm oldm).
+Proof. exact: kf_predict_transport. Qed.
+
 (* non-vacuity: PSD premises are satisfiable in every dimension, including by
    singular matrices *)
 Example C02_premises_satisfiable (F : realFieldType) n :
@@ -157,3 +177,4 @@ Print Assumptions C02_frame_weights.
 Print Assumptions C02_frame_covs_beyond.
 Print Assumptions C02_propagate_branches.
 Print Assumptions C02_skipped_identity.
+Print Assumptions C02_executed_model_is_theorem_model.
